@@ -1092,6 +1092,7 @@ def brute_empty(c) -> bool:
 def gate_class(c, N: int) -> Optional[str]:
     if c.marked:
         return gate_class(c.with_(marked=False), N)
+    N = max(N, len(c.prefix))  # long prefixes (deep searches): the class starts at size len(prefix)
     objs = [o for n in range(N + 1) for o in brute_objects(c, n)]
     lib_objs = [str(o) for n in range(N + 1) for o in c.objects_of_size(n)]
     if sorted(objs) != sorted(lib_objs):
